@@ -26,7 +26,7 @@ def _worker(modname, case_index, tier, conn):
         mod = importlib.import_module(modname)
         case = mod.cases(tier)[case_index]
         kw = {k: case[k] for k in ("profile", "budget_s", "max_paths", "oblig_timeout_s", "portfolio", "validate_paths", "fmod_K",
-                                   "separate", "fmod_fork", "argsort_mode", "incremental_discharge", "abstract_mul") if k in case}
+                                   "separate", "fmod_fork", "argsort_mode", "incremental_discharge", "abstract_mul", "decide_timeout_ms") if k in case}
         res = engine.explore(case["fn"], case["params"], case_name=case["name"], **kw)
         res["fn"] = case["fn"].__name__
         res["fn_module"] = case["fn"].__module__
